@@ -233,6 +233,11 @@ def witness(scn, res, ctx, replay, cond=None):
         return w
     if st_name == 'notmodified':
         w['agree'] = True
+        if hasattr(scn, 'extra_tv'):
+            ok, why = scn.extra_tv(res, pr, nat)
+            if not ok:
+                w['agree'] = False
+                w['why'] = why
         return w
     n1 = replay().normalize(pred)
     n2 = replay().normalize(nat['code'])
@@ -246,6 +251,12 @@ def witness(scn, res, ctx, replay, cond=None):
         w['pred_norm'] = n1['code']
         w['nat_norm'] = n2['code']
         return w
+    if hasattr(scn, 'extra_tv'):
+        ok, why = scn.extra_tv(res, pr, nat)
+        if not ok:
+            w['agree'] = False
+            w['why'] = why
+            return w
     tel = res['H'].status().fields[2]
     if tel.variant in (0, 1):
         cnt = tel.fields[0].fields[0]
@@ -424,10 +435,59 @@ class ProgramScenario(AstChecksBase):
         vs += O.check_C02_program(inv, er, erased)
         vs += O.check_C03(er, res['cfgspec'].terms)
         vs += O.check_C15_C12(outv, to_view(res['H'].status(), I.P.defs), O.count_hooks(outv))
-        vs += O.check_C12_program(inv, outv, to_view(res['H'].status(), I.P.defs))
+        if self.prologue:
+            vs += O.check_C12_program(inv, outv, to_view(res['H'].status(), I.P.defs))
         vs += O.check_C05_names(er, res['cfgspec'].terms)
         vs += O.check_C06_program(outv, res['cfgspec'].prefix)
         vs += O.check_C07(inv, outv)
         vs += O.check_C06_collision(inv, outv, to_view(res['H'].status(), I.P.defs), res['cfgspec'].prefix)
         vs += O.check_C04(inv, outv, er, erased, res['cfgspec'].terms)
         return vs, 8 + len(er.hooks)
+
+
+# ---------------------------------------------------------------------------------------------
+# literal collection (C14)
+
+class LiteralScenario(ProgramScenario):
+    """visit_mut_program followed by the real get_literals (LiteralVisitor over the transformed tree)."""
+
+    def __init__(self, sp, cfgspec, kinds=('Script',), enabled=(True,)):
+        ProgramScenario.__init__(self, sp, cfgspec, kinds, prologue=False)
+        self.enabled = list(enabled)
+
+    def run(self, I):
+        res = ProgramScenario.run(self, I)
+        ctx = I.ctx
+        en = self.enabled[ctx.choose([True] * len(self.enabled), 'literals enabled')] if len(self.enabled) > 1 else self.enabled[0]
+        compiler = Adt('Compiler', None, [Ptr(Cell(models.Opaque('SourceMap')), (), 'arc'), models.Opaque('SwcComments')])
+        prog_cell = Cell(res['out'])
+        lit = I.call_path('visitor::literal_visitor::get_literals', [en, StrV('test.js'), Ptr(prog_cell), Ptr(Cell(compiler))], None)
+        res['literals'] = lit
+        res['literals_enabled'] = en
+        res['cfgspec'].literals = en
+        return res
+
+    def oracles(self, I, ctx, res, inv, outv, er, erased):
+        vs, n = ProgramScenario.oracles(self, I, ctx, res, inv, outv, er, erased)
+        vs += O.check_C14(inv, to_view(res['literals'], I.P.defs), res['literals_enabled'])
+        return vs, n + 1
+
+    def extra_tv(self, res, pr, nat):
+        """the literal report predicted by mirsym (under the model) equals the native report: multiset of (value, ident)"""
+        lv = to_view(res['literals'], res['I'].P.defs)
+        nl = nat.get('literals')
+        if lv is None or nl is None:
+            return ((lv is None) == (nl is None)), 'literal report presence: predicted %s native %s' % (lv is not None, nl is not None)
+        pred = []
+        for info in lv['literals']:
+            val = pr.s(StrV(info['value']))
+            for loc in info['locations']:
+                ident = loc['ident']
+                pred.append((val, None if ident is None else pr.s(StrV(ident))))
+        natl = []
+        for info in nl['literals']:
+            for loc in info['locations']:
+                natl.append((info['value'], loc['ident']))
+        if sorted(pred, key=repr) != sorted(natl, key=repr):
+            return False, 'literal report differs: predicted %r native %r' % (sorted(pred, key=repr), sorted(natl, key=repr))
+        return True, None
